@@ -421,6 +421,51 @@ fn vp_native_response_truncation_end_to_end_body() {
             }
         }
     }
+    // the same for coded bodies (gzip, deflate) under both framings: a connection that closes anywhere inside the coded data is an
+    // error through every way of reading, never an empty or shortened body that ends cleanly; what was handed out is a prefix of
+    // the decoded payload.  (Cuts between the end of the coded data and the end of the chunked framing are left to the C01/C03
+    // checks: a decoder may have seen the end of its stream by then.)
+    {
+        use std::io::Write;
+        let plain: Vec<u8> = (0..600u32).map(|i| b"the quick brown fox "[(i % 20) as usize]).collect();
+        for coding in ["gzip", "deflate"] { for level in [0u32, 6] { for framing in ["content-length", "chunked"] {
+            let coded = if coding == "gzip" { let mut e = flate2::write::GzEncoder::new(Vec::new(), flate2::Compression::new(level)); e.write_all(&plain).unwrap(); e.finish().unwrap() }
+                        else { let mut e = flate2::write::DeflateEncoder::new(Vec::new(), flate2::Compression::new(level)); e.write_all(&plain).unwrap(); e.finish().unwrap() };
+            let mut wire = format!("HTTP/1.1 200 OK\r\nContent-Encoding: {}\r\n", coding).into_bytes();
+            let data_end;
+            if framing == "chunked" {
+                wire.extend_from_slice(b"Transfer-Encoding: chunked\r\n\r\n");
+                let pieces: Vec<&[u8]> = coded.chunks(coded.len() / 2 + 1).collect();
+                let mut end = 0;
+                for c in &pieces { wire.extend_from_slice(format!("{:x}\r\n", c.len()).as_bytes()); wire.extend_from_slice(c); end = wire.len(); wire.extend_from_slice(b"\r\n"); }
+                wire.extend_from_slice(b"0\r\n\r\n"); data_end = end;
+            } else { wire.extend_from_slice(format!("Content-Length: {}\r\n\r\n", coded.len()).as_bytes()); wire.extend_from_slice(&coded); data_end = wire.len(); }
+            let head_end = wire.windows(4).position(|w| w == b"\r\n\r\n").unwrap() + 4;
+            let req = PreparedRequest::new(Method::GET, "http://a.test/");
+            let whole = parse_response(BaseStream::mock(wire.clone()), &req, req.url()).unwrap().bytes().unwrap_or_else(|e| panic!("complete {} {} response: {}", coding, framing, e));
+            assert!(whole == plain, "complete {} {} response decodes to {} bytes", coding, framing, whole.len());
+            for cut in head_end..data_end {
+                let w = wire[..cut].to_vec();
+                let open = || parse_response(BaseStream::mock(w.clone()), &req, req.url()).unwrap();
+                cases += 1; crate::verif_native_watchdog::progress();
+                let ctx = format!("{} (level {}) {} response cut at {} of {} (coded data ends at {})", coding, level, framing, cut, wire.len(), data_end);
+                let b = open().bytes(); assert!(b.is_err(), "{}: bytes() reported a complete body of {} bytes", ctx, b.map(|v| v.len()).unwrap_or(0));
+                let t = open().text_utf8(); assert!(t.is_err(), "{}: text_utf8() reported a complete body", ctx);
+                let mut sink = Vec::new(); let wt = open().write_to(&mut sink); assert!(wt.is_err(), "{}: write_to() reported a complete body of {:?} bytes", ctx, wt.ok());
+                assert!(plain.starts_with(&sink), "{}: write_to() wrote bytes that are not a prefix of the decoded payload", ctx);
+                let mut v = Vec::new(); let re = std::io::Read::read_to_end(&mut open(), &mut v); assert!(re.is_err(), "{}: read_to_end() reported a complete body of {} bytes", ctx, v.len());
+                for size in [1usize, 64, 4096] {
+                    let mut r = open(); let mut out = Vec::new(); let mut errors = 0;
+                    for _ in 0..2000 {
+                        let mut buf = vec![0u8; size];
+                        match std::io::Read::read(&mut r, &mut buf) { Ok(0) => { assert!(errors > 0, "{}: reads of {} bytes ended cleanly after {} bytes without any error", ctx, size, out.len()); break; }
+                            Ok(k) => out.extend_from_slice(&buf[..k]), Err(_) => { errors += 1; if errors > 3 { break; } } }
+                        assert!(plain.starts_with(&out), "{}: reads of {} bytes handed out bytes that are not a prefix of the decoded payload", ctx, size);
+                    }
+                }
+            }
+        } } }
+    }
     println!("VP-NATIVE response_truncation_end_to_end cases={}", cases);
 }
 
